@@ -118,6 +118,12 @@ Proof.
 Qed.
 Print Assumptions C07_name_filters_are_intersections.
 
+(* the empty list of names selects no name: keep([]) / all([]) return no DOF (the intersection with the empty set is empty) *)
+Theorem C07_empty_name_list_selects_nothing :
+  forall D dofnames offs v, flatten D (keep D dofnames offs v []) = [] /\ all_named D dofnames offs v [] = [].
+Proof. intros. split; apply keep_empty_names. Qed.
+Print Assumptions C07_empty_name_list_selects_nothing.
+
 (* the name a filter tests for component k of a kind is the name element.dofnames gives to that basis function, PROVIDED the
    regenerated offsets are the basis-function order nodal, edge, facet, interior (obligation Gen/C07NameOrder.v) *)
 Theorem C07_names_follow_basis_function_order :
